@@ -71,6 +71,15 @@ class GetService(DPWSPortTypeBase):
             # read the version group in the same critical section as the states
             mdib_version_group = self._mdib.mdib_version_group
 
+        # a state is reported only once, even if it was selected by several requested handles
+        seen_ids = set()
+        unique_state_containers = []
+        for state_container in state_containers:
+            if id(state_container) not in seen_ids:
+                seen_ids.add(id(state_container))
+                unique_state_containers.append(state_container)
+        state_containers = unique_state_containers
+
         factory = self._sdc_device.msg_factory
         response = data_model.msg_types.GetMdStateResponse()
         response.MdState.State.extend(state_containers)
